@@ -114,7 +114,7 @@ func clampUint(tag string, v uint64) uint64 {
 
 // genGoVal draws from every Go value class of §3.6 (all JSON-representable).
 func genGoVal(rt *rapid.T, label string, depth int) sim.Val {
-	switch rapid.IntRange(0, 11).Draw(rt, label+".goclass") {
+	switch rapid.IntRange(0, 14).Draw(rt, label+".goclass") {
 	case 0:
 		tag := rapid.SampledFrom(intTags).Draw(rt, label+".itag")
 		v := rapid.SampledFrom([]int64{0, 1, -1, 127, -128, 32767, 1 << 31, -(1 << 31), 1<<53 + 1, math.MaxInt64, math.MinInt64, 42}).Draw(rt, label+".ival")
@@ -148,7 +148,24 @@ func genGoVal(rt *rapid.T, label string, depth int) sim.Val {
 		}
 		return v
 	case 8:
-		return sim.Val{T: "nilslice"}
+		return sim.Val{T: rapid.SampledFrom([]string{"nilslice", "nilmap"}).Draw(rt, label+".niltag")}
+	case 9:
+		// byte slices (a base64 string for encoding/json) and fixed-size Go arrays (JSON arrays)
+		switch rapid.IntRange(0, 2).Draw(rt, label+".arrclass") {
+		case 0:
+			return sim.Val{T: "bytes", S: rapid.SampledFrom([]string{"", "\x01\x02\x03", "hello", "\x00\x7f~"}).Draw(rt, label+".bytes")}
+		case 1:
+			return sim.Val{T: "f64array", L: []sim.Val{sim.F(float64(rapid.IntRange(-3, 3).Draw(rt, label+".a0"))), sim.F(1.5)}}
+		}
+		return sim.Val{T: "bytearray", U: uint64(rapid.IntRange(0, 1<<24-1).Draw(rt, label+".ba"))}
+	case 10:
+		// the special values as members / elements of an ordinary container
+		sp := []sim.Val{{T: "nilslice"}, {T: "nilmap"}, {T: "bytes", S: "\x01\x02"}, {T: "f64array", L: []sim.Val{sim.F(2), sim.F(3)}}, {T: "bytearray", U: 0x030201}}
+		x := rapid.SampledFrom(sp).Draw(rt, label+".special")
+		if rapid.Bool().Draw(rt, label+".inobj") {
+			return sim.Obj(sim.KV{K: "a", V: x}, sim.KV{K: "z", V: genPrim(rt, label+".after")})
+		}
+		return sim.Arr(x, genPrim(rt, label+".after"))
 	default:
 		return genJSONVal(rt, label, depth, keyPoolHostile)
 	}
